@@ -30,8 +30,8 @@ var stageFuncs = map[string]string{
 // stageCallers: frozen table of which functions may call each stage function.
 var stageCallers = map[string][]string{
 	"preNewPeer": {"NewPeer"}, "postNewPeer": {"NewPeer"}, "postReg": {"(*SubRouter).reg"}, "postListen": {"(*peer).serveListener"},
-	"postDial":   {"(*peer).Dial$1", "(*peer).Dial$2$1"},
-	"postAccept": {"(*peer).ServeConn", "(*peer).serveListener$1"},
+	"postDial":     {"(*peer).Dial$1", "(*peer).Dial$2$1"},
+	"postAccept":   {"(*peer).ServeConn", "(*peer).serveListener$1"},
 	"preWriteCall": {"(*session).AsyncCall"}, "postWriteCall": {"(*session).AsyncCall"},
 	"preWritePush": {"(*session).Push"}, "postWritePush": {"(*session).Push"},
 	"preWriteReply": {"(*handlerCtx).handleCall"}, "postWriteReply": {"(*handlerCtx).handleCall"},
@@ -64,6 +64,50 @@ func init() {
 	register(&Rule{ID: "C09.6", Prop: "C09", Min: 3,
 		Text: "container selection: binding() installs the peer's global container before the header stage; bindCall/bindPush switch to the matched handler's own container (global-left ++ group/handler middle ++ global-right) before the body stages",
 		Run:  runC09_6})
+}
+
+// ownerName strips the closure suffixes of a table entry: "(*peer).Dial$2$1" -> "(*peer).Dial".
+func ownerName(s string) string {
+	if i := strings.IndexByte(s, '$'); i >= 0 {
+		return s[:i]
+	}
+	return s
+}
+
+// ownerOf: the top-level function fn belongs to (see runC09_4).
+func (p *Prog) ownerOf(fn *ssa.Function, depth int) string {
+	top := EnclosingTop(fn)
+	if depth < 3 && top.Object() != nil && !top.Object().Exported() {
+		if cs, noEscape := p.callSitesOf(top); noEscape && len(cs) >= 1 {
+			owner := ""
+			same := true
+			for _, c := range cs {
+				o := p.ownerOf(c.fn, depth+1)
+				if owner == "" {
+					owner = o
+				} else if owner != o {
+					same = false
+				}
+			}
+			// only helpers introduced next to a frozen caller are folded into it: the stage callers of the table
+			// themselves (bindCall, handleCall, closeLocked ...) stay their own owners
+			if same && owner != "" && !isFrozenCaller(shortFn(top)) {
+				return owner
+			}
+		}
+	}
+	return shortFn(top)
+}
+
+func isFrozenCaller(name string) bool {
+	for _, list := range stageCallers {
+		for _, w := range list {
+			if ownerName(w) == name {
+				return true
+			}
+		}
+	}
+	return false
 }
 
 func capFirst(s string) string {
@@ -541,15 +585,22 @@ func runC09_4(c *Ctx) {
 		} else {
 			m = p.MethodObj(Root, "pluginSingleContainer", name)
 		}
+		// callers are compared by owner: the top-level framework function a caller belongs to (closures belong to
+		// their enclosing function, an unexported helper with a single static caller to that caller's owner), so that
+		// extracting a closure body or a block into a helper does not change the table
+		wantOwners := map[string]int{}
+		for w := range want {
+			wantOwners[ownerName(w)]++
+		}
 		seen := map[string]int{}
 		for _, fn := range p.ShippedFuncs() {
 			for range CallsTo(fn, m) {
-				seen[shortFn(fn)]++
+				seen[p.ownerOf(fn, 0)]++
 			}
 		}
-		ok := len(seen) == len(want)
+		ok := len(seen) == len(wantOwners)
 		for k, n := range seen {
-			if !want[k] || n != 1 {
+			if wantOwners[k] != n {
 				ok = false
 			}
 		}
@@ -665,9 +716,9 @@ func runC09_4(c *Ctx) {
 	// postWrite* only on the write's OK edge
 	okM := p.MethodObj(statusPkg, "Status", "OK")
 	for _, s := range []struct {
-		fn        *ssa.Function
-		w, post   *types.Func
-		name      string
+		fn      *ssa.Function
+		w, post *types.Func
+		name    string
 	}{{p.Fn(Root, "session", "AsyncCall"), write, sc("postWriteCall"), "postWriteCall"}, {p.Fn(Root, "session", "Push"), write, sc("postWritePush"), "postWritePush"}, {hc, writeReply, sc("postWriteReply"), "postWriteReply"}} {
 		ok := false
 		for _, post := range CallsTo(s.fn, s.post) {
@@ -776,7 +827,9 @@ func runC09_5(c *Ctx) {
 					retNil = false
 				}
 			}
-			later := p.ReachableFromBlock(e.False, func(i ssa.Instruction) bool { return hook == "postReadReplyHeader" && IsCallTo(i, sc("preReadReplyBody")) }, nil, nil)
+			later := p.ReachableFromBlock(e.False, func(i ssa.Instruction) bool {
+				return hook == "postReadReplyHeader" && IsCallTo(i, sc("preReadReplyBody"))
+			}, nil, nil)
 			ok = storedVeto && retNil && len(later) == 0
 		}
 		c.Check(ok, "bindReply: veto of "+hook, p.Pos(br.Pos()), "status stored in the call; nil returned; no later stage", "a veto of "+hook+" is not delivered to the caller as the call's status")
